@@ -1,6 +1,9 @@
 import Driver.Proto
 import CifModel.Model.Ladder
 import CifModel.Model.LadderMap
+import CifModel.Model.LadderTree
+import CifModel.Model.LadderIter
+import CifModel.Model.LadderHeader
 /-
   family `ladder` (C17): allocation/free pattern of three library functions under one failed allocation.
     ladder dup <n> <k>                      dup_ustrings on n strings, k-th allocation fails (0 = none)
@@ -19,6 +22,14 @@ import CifModel.Model.LadderMap
                                             <key> = <orig-hex>[:<norm-hex>]; answers carry ` items=<n>` (entries afterwards)
     ladder deser { <key-hex> <shape> … } <k>  cif_value_deserialize of the blob of a table value (entry values without tables)
     ladder namesnorm <n> <k>                cif_loop_get_names_internal(normalize = 1) on a stored loop with n item names
+    ladder vclone <vshape…> <k>             cif_value_clone of ANY value (Model/LadderTree `cloneV`): tables at any depth
+    ladder vdeser <vshape…> <k>             cif_value_deserialize of the blob of ANY list / table value (`deserV`)
+                                            vshape tokens: S | C | M0 | M1 | [ vshape* ] | { (<key-hex> vshape)* }
+    ladder getpackets <n> <name-hex>*n <k>  cif_loop_get_packets on a stored loop with the n (normalised) item names and one packet
+    ladder nextpacket <keep 0|1> <n> (<name-hex> <vshape…>)*n <k>   cif_pktitr_next_packet: the loop's only packet has the given
+                                            values; keep = 1: handed to the caller (*packet == NULL), 0: dropped (packet == NULL)
+    ladder loophdr <n> <k>                  parse_loop (syntax-only) on a header of n distinct names and a refused repetition of the first
+    ladder allloops <flags> <k>             cif_container_get_all_loops on a block with one loop per flag character (c = with category, n = without)
     ladder names <n> <k>                    cif_loop_get_names on a stored loop with n item names (the code as it is:
                                             getNamesPinned)
   shape tokens: S (unknown/na) | C (char) | M0 | M1 (number without / with su) | [ shape* ]
@@ -66,6 +77,44 @@ mutual
       match toD e, toDs es with
       | some a, some b => some (a :: b)
       | _, _ => none
+end
+
+mutual
+  /-- value trees: as `parseShape`, plus tables `{ <key-hex> <vshape> … }` at any depth -/
+  def parseV : Nat → List String → Option (VShape × List String)
+    | 0, _ => none
+    | fuel + 1, t :: rest =>
+      if t == "S" then some (.scalar, rest)
+      else if t == "C" then some (.chr, rest)
+      else if t == "M0" then some (.numb false, rest)
+      else if t == "M1" then some (.numb true, rest)
+      else if t == "[" then (parseVs fuel rest).map (fun (es, r) => (.lst es, r))
+      else if t == "{" then (parseVEntries fuel rest).map (fun (es, r) => (.tbl es, r))
+      else none
+    | _ + 1, [] => none
+  def parseVs : Nat → List String → Option (List VShape × List String)
+    | 0, _ => none
+    | fuel + 1, toks =>
+      match toks with
+      | [] => none
+      | t :: rest =>
+        if t == "]" then some ([], rest) else
+        match parseV fuel toks with
+        | none => none
+        | some (sh, r) => (parseVs fuel r).map (fun (es, r') => (sh :: es, r'))
+  def parseVEntries : Nat → List String → Option (List (List Nat × VShape) × List String)
+    | 0, _ => none
+    | fuel + 1, toks =>
+      match toks with
+      | [] => none
+      | t :: rest =>
+        if t == "}" then some ([], rest) else
+        match unhex t with
+        | none => none
+        | some key =>
+          match parseV fuel rest with
+          | none => none
+          | some (sh, r) => (parseVEntries fuel r).map (fun (es, r') => ((key, sh) :: es, r'))
 end
 
 def isort (l : List Nat) : List Nat := l.foldr ins []
@@ -187,6 +236,62 @@ def handle : Handler
           let k ← k.toNat?
           let (o, st) := clone k sh
           pure (summary (if o.isSome then OK else MEMORY_ERROR) st.evs)
+      | _ => none
+  | "vclone" :: rest => do                      -- any value tree (Model/LadderTree)
+      let (sh, r) ← parseV (rest.length + 1) rest
+      match r with
+      | [k] => do
+          let k ← k.toNat?
+          let (o, st) := cloneV k sh
+          pure (summary (if o.isSome then OK else MEMORY_ERROR) st.evs)
+      | _ => none
+  | "vdeser" :: rest => do                      -- the blob of any list / table value
+      let (sh, r) ← parseV (rest.length + 1) rest
+      match r with
+      | [k] => do
+          let k ← k.toNat?
+          let b ← (match sh with | .lst es => some (VBlob.lst es) | .tbl es => some (VBlob.tbl es) | _ => none)
+          let (rc, _, st) := deserV k b
+          pure (summary rc st.evs ++ s!" code={rc}")
+      | _ => none
+  | ["loophdr", n, k] => do
+      let n ← n.toNat?; let k ← k.toNat?
+      if n = 0 then none
+      let (rc, st) := loopHeaderAbort k n
+      pure (summary rc st.evs)
+  | ["allloops", fl, k] => do
+      let k ← k.toNat?
+      let cats ← fl.toList.mapM (fun c => if c == 'c' then some true else if c == 'n' then some false else none)
+      let (rc, _, st) := getAllLoops k cats
+      pure (summary rc st.evs)
+  | "getpackets" :: nT :: rest => do
+      let n ← nT.toNat?
+      if rest.length ≠ n + 1 then none
+      let names ← (rest.take n).mapM unhex
+      let k ← (rest.drop n).head?.bind String.toNat?
+      let (rc, _, st) := getPackets k (names.map (fun nm => hashJen (keyBytes nm)))
+      pure (summary rc st.evs)
+  | "nextpacket" :: keepT :: nT :: rest => do
+      let keep ← parseBool keepT
+      let n ← nT.toNat?
+      let rec items (fuel : Nat) (toks : List String) (acc : List (Nat × ItemVal)) : Option (List (Nat × ItemVal) × List String) :=
+        match fuel with
+        | 0 => some (acc.reverse, toks)
+        | fuel + 1 =>
+          match toks with
+          | [] => none
+          | t :: r => do
+            let nm ← unhex t
+            let (sh, r') ← parseV (r.length + 1) r
+            let iv : ItemVal := match sh with
+              | .scalar => .unk | .chr => .chr | .numb b => .numb b | .lst es => .blob (.lst es) | .tbl es => .blob (.tbl es)
+            items fuel r' ((hashJen (keyBytes nm), iv) :: acc)
+      let (its, r) ← items n rest []
+      match r with
+      | [kT] => do
+          let k ← kT.toNat?
+          let (rc, _, st) := nextPacket k keep its
+          pure (summary rc st.evs)
       | _ => none
   | "insert" :: full :: rest => do
       let full ← parseBool full
